@@ -124,6 +124,11 @@ def related_samples(rng, k, nsamp, length=None, snp_rate=0.02):
     """Samples sharing ancestry so their k-mers overlap partially (C07/C08/C10/C13...)."""
     length = length or rng.randint(3 * k, 6 * k + 40)
     anc = rand_seq(rng, length)
+    if rng.random() < 0.3 and length >= 2 * k + 6:
+        # a run of one base longer than k: the all-A split k-mer (the number 0 in the packed encoding; all-T is the same
+        # k-mer with both strands) is present in every derived sample
+        at = rng.randint(0, length - (k + 3))
+        anc = anc[:at] + rng.choice("AT") * (k + 2) + anc[at + k + 2:]
     out = []
     for _ in range(nsamp):
         s = list(anc)
